@@ -254,7 +254,7 @@ pub fn run_store(ch: &mut Chooser, ctx: &mut Ctx) {
         let high = envelope::effective_high(fam, k, r);
         let b = gen_bytes(ch, if scale == 2 { 66 } else { 258 });
         let data_seed = ch.seed64("stripe.data");
-        let data_mode = ch.weighted("stripe.datamode", &[8, 1, 1, 3]) as u8;
+        let data_mode = ch.weighted("stripe.datamode", &[8, 1, 1, 3, 3]) as u8;
         let originals: Vec<Vec<u8>> = (0..k).map(|i| gen_shard(data_seed, data_mode, i, b)).collect();
         w.stripes.push(StripeRec { high, k, r, b, originals, recovery: Vec::new(), put_done: false });
         let t_put = ch.pick("work.put_at", 400_000);
@@ -510,7 +510,7 @@ fn writer_encode(ctx: &mut Ctx, w: &mut World, wi: usize, s: usize, reuse_choice
             Some(v)
         }
         Ok(Ok(Err(why))) => {
-            ctx.viol(&["C12"], "result-contract", "enc-result/store".into(), format!("{}({k},{r},{b}) EncoderResult: {why}", kind.name()), true);
+            ctx.viol(if why.contains("disagree") || why.contains("differs") { &["C12", "C02"] } else { &["C12"] }, "result-contract", "enc-result/store".into(), format!("{}({k},{r},{b}) EncoderResult: {why}", kind.name()), true);
             None
         }
         Ok(Err(e)) => {
